@@ -43,7 +43,7 @@ def shift(t, k):
 
 @st.composite
 def _cases(draw, max_size=10):
-    s = draw(gen.score_sets(max_size=max_size, modes=MODES, mag=1e6, containers=("f64", "f64", "f32", "list", "neg-int", "pos-int", "neg-f32", "f128")))
+    s = draw(gen.score_sets(max_size=max_size, modes=MODES, mag=1e6, containers=("f64", "f64", "f32", "list", "neg-int", "pos-int", "neg-f32", "f128", "series")))
     pops = [len(s["pos"]) + s["ep"], len(s["neg"]) + s["en"],
             len(s["pos"]) + len(s["neg"]) + s["ep"] + s["en"]]
     k = draw(st.integers(1, 5))
